@@ -104,7 +104,26 @@ func cmdRun(args []string) {
 		fmt.Fprintln(os.Stderr, "init:", err)
 		os.Exit(2)
 	}
+	if os.Getenv("GOATSYM_FORKS") != "" {
+		e.forkSites = map[string]int{}
+	}
 	res := e.runHarness(*h)
+	if e.forkSites != nil {
+		type kv struct {
+			k string
+			v int
+		}
+		var l []kv
+		for k, v := range e.forkSites {
+			l = append(l, kv{k, v})
+		}
+		sort.Slice(l, func(i, j int) bool { return l[i].v > l[j].v })
+		for i, x := range l {
+			if i < 25 {
+				fmt.Fprintf(os.Stderr, "FORKS %6d %s\n", x.v, x.k)
+			}
+		}
+	}
 	writeJSON(*out, res)
 	fmt.Fprintf(os.Stderr, "%s %s: paths=%d states=%d trans=%d instrs=%d vcs=%d solver=%d/%.2fs load=%.1fs wall=%.1fs\n",
 		res.Harness, res.Status, res.Stats.Paths, res.Stats.States, res.Stats.Transitions, res.Stats.Instrs, res.Stats.VCs,
